@@ -23,7 +23,7 @@ from __future__ import annotations
 import re
 from typing import Any, Dict, List, Optional, Tuple
 
-from .core import Violation
+from .core import Violation, mix32
 from . import c10_shapes as S
 
 SECTION_BASE = {"code": 0x00000, "text": 0x00000, "data": 0x80000, "bss": 0x90000}
@@ -402,6 +402,253 @@ def near_symbols_as_literals(prog: Dict[str, Any], lay: Dict[str, Any]) -> Dict[
     return out
 
 
+# ------------------------------------------------------------------------------------------------ label names
+#
+# A label is `CNAME ":"`: its SPELLING is part of the quantifier.  Nothing in the grammar reserves the names of the
+# internal-memory registers (only `(KOL)`-style operands know them), of mnemonics, directives or section names, so
+# a program may call a label SI, Kil, bp, NOP, defw, data, ...; references to it are looked up case-insensitively.
+# The generator therefore renames the labels of a finished program (definition and every reference) to spellings
+# from the vocabularies below.  The oracle is unchanged: a label's value is what the layout model says, whatever
+# the label is called.
+
+IMEM_NAMES = ["BL", "BH", "CL", "CH", "DL", "DH", "SI", "SI1", "SI2", "DI", "DI1", "DI2", "IOCS_WS", "IOCS_WS1",
+              "IOCS_WS2", "BP", "PX", "PY", "AMC", "KOL", "KOH", "KIL", "EOL", "EOH", "EIL", "EIH", "UCR", "USR",
+              "RXD", "TXD", "IMR", "ISR", "SCR", "LCC", "SSR"]
+# names the grammar's `reg` rule accepts as an operand (a reference in a position that also admits `reg` is read
+# as the register: such a position is outside the domain for that name, see reference_reads_symbols)
+REG_OPERAND_NAMES = ["A", "IL", "BA", "I", "X", "Y", "U", "S"]
+REG_OTHER_NAMES = ["B", "F", "PC", "FC", "FZ"]
+MNEMONIC_NAMES = ["NOP", "RET", "RETI", "RETF", "HALT", "RESET", "WAIT", "MV", "MVW", "MVL", "JP", "JPF", "JPZ",
+                  "JR", "CALL", "CALLF", "PUSHU", "POPS", "INC", "DEC", "ADD", "SUB", "AND", "OR", "XOR", "CMP",
+                  "TEST", "EX", "SWAP", "ROL", "SHL", "PMDF", "DSLL", "ADCL"]
+DIRECTIVE_NAMES = ["defb", "defw", "defl", "defs", "defm", "ORG", "SECTION", "code", "data", "bss", "text",
+                   "EQU", "END", "db", "dw"]
+# identifiers that merely BEGIN with a mnemonic that takes no operand (RET, OFF, SC, NOP, ...)
+PREFIXED_NAMES = ["RETRY", "OFFSET", "SCAN", "NOPE", "RESET_VEC", "HALTED", "WAIT_KEY", "SC_1", "RCV", "IRQ",
+                  "TCLK", "RETURN"]
+# identifiers that look like numbers of other notations (none of them is a NUMBER of the grammar)
+NUMBERLIKE_NAMES = ["xFF", "h", "e1", "b0", "o7", "FFh", "True", "None", "_", "__", "_0", "x0", "O0", "l"]
+NAME_VOCABULARY: List[Tuple[str, int, List[str]]] = [
+    ("imem-register", 44, IMEM_NAMES),
+    ("cpu-register-operand", 10, REG_OPERAND_NAMES),
+    ("cpu-register-other", 8, REG_OTHER_NAMES),
+    ("mnemonic", 9, MNEMONIC_NAMES),
+    ("directive-or-section", 10, DIRECTIVE_NAMES),
+    ("mnemonic-prefixed", 5, PREFIXED_NAMES),
+    ("number-like", 14, NUMBERLIKE_NAMES),
+]
+_NAME_CLASS = {n.upper(): cls for cls, _w, names in reversed(NAME_VOCABULARY) for n in names}
+_CNAME = re.compile(r"[A-Za-z_][A-Za-z0-9_]*\Z")
+
+
+def name_class(name: str) -> str:
+    """Vocabulary class of a label spelling ('generated' for the L1 / lbl_2 / Loop3x ... styles)."""
+    return _NAME_CLASS.get(name.upper(), "generated")
+
+
+def split_remainders(name: str) -> List[str]:
+    """Upper-case names that remain when one or more operand-less mnemonics are cut off the front of `name`
+    (`OFFSET` -> `SET`, `SCR` -> `R`, `RETI` -> `I`): the grammar has no token boundaries, so these are the shorter
+    labels a scanner-less parser can see in `OFFSET:`."""
+    words = sorted({t.upper() for t in S.candidate_templates() if " " not in t})
+    out: List[str] = []
+    todo = [name.upper()]
+    while todo:
+        cur = todo.pop()
+        for w in words:
+            rest = cur[len(w):]
+            if cur.startswith(w) and rest and _CNAME.match(rest) and rest not in out:
+                out.append(rest)
+                todo.append(rest)
+    return sorted(out)
+
+
+_PARSER: Any = None
+_READS: Dict[str, bool] = {}
+
+
+def name_probe_available() -> bool:
+    """Is the tree's parser object reachable (sc62015.pysc62015.asm.asm_parser)?"""
+    global _PARSER
+    if _PARSER is None:
+        try:
+            from sc62015.pysc62015.asm import asm_parser
+            _PARSER = asm_parser
+        except Exception:
+            _PARSER = False
+    return _PARSER is not False
+
+
+def reference_reads_symbols(text: str, expected: List[str]) -> bool:
+    """Domain question, asked of the tree's PARSER only (never of its evaluation): does the statement `text` read
+    exactly the spellings `expected` as symbol atoms?  `JP x` is `JP <register X>` (the register terminals have
+    priority over CNAME), `CALL x` / `defw x` / `MV A, [kol]` read a symbol.  A spelling the parser reads as
+    something else -- or rejects -- in a position is a reserved word there: the program is outside the domain."""
+    key = text + "\x00" + "\x00".join(sorted(expected))
+    r = _READS.get(key)
+    if r is None:
+        r = False
+        if name_probe_available():
+            try:
+                tree = _PARSER.parse(text + "\n")
+                atoms = []
+                for t in tree.iter_subtrees():
+                    if str(t.data) == "atom" and len(t.children) == 1 and getattr(t.children[0], "type", "") == "CNAME":
+                        atoms.append(str(t.children[0]))
+                r = sorted(atoms) == sorted(expected)
+            except Exception:
+                r = False
+        if len(_READS) > 50000:
+            _READS.clear()
+        _READS[key] = r
+    return r
+
+
+def _sym_ops(stmt: Optional[Dict[str, Any]]) -> List[Dict[str, Any]]:
+    """The dicts of a statement that carry a symbolic reference ({'sym', 'text'}), incl. `.ORG <label>`."""
+    if not stmt:
+        return []
+    if stmt["t"] == "org":
+        return [stmt] if "sym" in stmt else []
+    return [o for o in (stmt.get("ops") or []) + (stmt.get("args") or []) if isinstance(o, dict) and "sym" in o]
+
+
+def _recase(name: str, how: int) -> str:
+    return [name, name.upper(), name.lower(), name.capitalize(), name.swapcase()][how % 5]
+
+
+def apply_label_names(prog: Dict[str, Any], seed: int) -> int:
+    """Generator pass (own deterministic stream, so the structure Hypothesis drew is untouched): rename labels of a
+    finished program to spellings from NAME_VOCABULARY -- definition and every reference, references in a case of
+    their own.  A new spelling is kept only if (a) it is unique case-insensitively and (b) the tree's parser reads
+    every statement that refers to it as referring to a symbol (reference_reads_symbols).  Half of the programs are
+    left alone.  Returns the number of labels renamed."""
+    n = [0]
+
+    def u32() -> int:
+        n[0] += 1
+        return mix32(seed, 0xC10A, n[0])
+
+    r = u32() % 100
+    if r < 50 or not name_probe_available():
+        return 0
+    rate = 40 if r < 80 else 85
+    lines = prog["lines"]
+    used = {ln["label"].upper() for ln in lines if ln.get("label")}
+    total = sum(w for _c, w, _n in NAME_VOCABULARY)
+    renamed = 0
+    for ln in lines:
+        old = ln.get("label")
+        if not old or u32() % 100 >= rate:
+            continue
+        k = u32() % total
+        for _cls, w, names in NAME_VOCABULARY:
+            if k < w:
+                break
+            k -= w
+        new = names[u32() % len(names)]
+        c = u32() % 100
+        new = new if c < 40 else new.lower() if c < 70 else new.capitalize() if c < 85 else "".join(
+            ch.upper() if (u32() & 1) else ch.lower() for ch in new)
+        if new.upper() in used:
+            continue
+        touched: List[Tuple[Dict[str, Any], str, str]] = []
+        stmts: List[Dict[str, Any]] = []
+        for l2 in lines:
+            hit = False
+            for op in _sym_ops(l2.get("stmt")):
+                if op["sym"].upper() != old.upper():
+                    continue
+                was = str(op.get("text") or op["sym"])
+                how = 0 if was == op["sym"] else 1 if was == op["sym"].upper() else 2
+                if u32() % 100 < 25:
+                    how = 1 + u32() % 4
+                touched.append((op, op["sym"], was))
+                op["sym"], op["text"] = new, _recase(new, how)
+                hit = True
+            if hit:
+                stmts.append(l2["stmt"])
+        if all(reference_reads_symbols(stmt_text(s), [str(o["text"]) for o in _sym_ops(s)]) for s in stmts):
+            ln["label"] = new
+            used.discard(old.upper())
+            used.add(new.upper())
+            renamed += 1
+        else:
+            for op, sym, was in touched:
+                op["sym"], op["text"] = sym, was
+    return renamed
+
+
+WHERE_MISREAD = "program with a label named like a mnemonic or beginning with an operand-less mnemonic"
+SYMPTOM_MISREAD = "a word is split in two: the statements read are not the statements written"
+
+
+def has_mnemonic_like_label(prog: Dict[str, Any]) -> bool:
+    return any(ln.get("label") and (name_class(ln["label"]) in ("mnemonic", "mnemonic-prefixed")
+                                    or split_remainders(ln["label"])) for ln in prog["lines"])
+
+
+def written_structure(prog: Dict[str, Any]) -> List[Tuple[str, Any]]:
+    """The program as written: labels and statements in order; a statement = (its symbol spellings, how many
+    numbers it has).  Line grouping is left out (newlines are ignored whitespace for the grammar)."""
+    out: List[Tuple[str, Any]] = []
+    for ln in prog["lines"]:
+        if ln.get("label"):
+            out.append(("label", str(ln["label"])))
+        stmt = ln.get("stmt")
+        if stmt:
+            syms = sorted(str(o.get("text") or o["sym"]) for o in _sym_ops(stmt))
+            if stmt["t"] == "section":
+                out.append(("section", stmt["name"].lower()))
+            else:
+                out.append(("stmt", syms))
+    return out
+
+
+def read_structure(src: str) -> Optional[List[Tuple[str, Any]]]:
+    """The same view of what the tree's PARSER reads in `src` (None: parser unreachable or the source is rejected)."""
+    if not name_probe_available():
+        return None
+    try:
+        tree = _PARSER.parse(src)
+    except Exception:
+        return None
+    out: List[Tuple[str, Any]] = []
+    for line in tree.children:
+        if not hasattr(line, "children"):
+            continue
+        for ch in line.children:
+            if not hasattr(ch, "children"):
+                continue
+            if str(ch.data) == "label":
+                out.append(("label", str(ch.children[0])))
+            elif str(ch.data) == "section_decl":
+                out.append(("section", str(ch.children[-1]).lower()))
+            else:
+                syms = [str(t.children[0]) for t in ch.iter_subtrees()
+                        if str(t.data) == "atom" and getattr(t.children[0], "type", "") == "CNAME"]
+                out.append(("stmt", sorted(syms)))
+    return out
+
+
+def misread(prog: Dict[str, Any], src: str) -> Optional[str]:
+    """Root-cause discriminator for ONE family of violations: in a program with mnemonic-like label names, does the
+    tree's parser read other labels / statements than the ones written (`OFFSET:` + `NOP` read as `OFF`, `SET:`,
+    `NOP`; `CALLF CALLF` read as `CALL F`, `CALL F`)?  Only ever used to NAME a violation that a verdict on the
+    assembler's output has already established."""
+    if not has_mnemonic_like_label(prog):
+        return None
+    got = read_structure(src)
+    want = written_structure(prog)
+    if got is None or got == want:
+        return None
+    k = 0
+    while k < min(len(got), len(want)) and got[k] == want[k]:
+        k += 1
+    return (f"item {k}: written {want[k] if k < len(want) else 'nothing'}, read "
+            f"{got[k] if k < len(got) else 'nothing'} ({len(want)} items written, {len(got)} read)")
+
+
 # ------------------------------------------------------------------------------------------------ running
 
 def assemble(asm: Any, src: str) -> Dict[str, Any]:
@@ -467,7 +714,51 @@ def expected_data(stmt: Dict[str, Any], syms: Dict[str, int]) -> Optional[bytes]
     return None  # defs: only the count of reserved bytes is asserted
 
 
+def with_generated_names(prog: Dict[str, Any], classes: Optional[List[str]] = None) -> Dict[str, Any]:
+    """The same program with its vocabulary-spelled labels (of the given classes; default all) renamed to neutral
+    ones (`nq3z`), definition and references."""
+    import copy
+
+    out = copy.deepcopy(prog)
+    ren: Dict[str, str] = {}
+    for k, ln in enumerate(out["lines"]):
+        lab = ln.get("label")
+        if lab and name_class(lab) != "generated" and (classes is None or name_class(lab) in classes):
+            ren[lab.upper()] = f"nq{k}z"
+            ln["label"] = ren[lab.upper()]
+    for ln in out["lines"]:
+        for op in _sym_ops(ln.get("stmt")):
+            if op["sym"].upper() in ren:
+                op["sym"] = op["text"] = ren[op["sym"].upper()]
+    return out
+
+
 def check_program(prog: Dict[str, Any], stats: Optional[Dict[str, int]] = None) -> List[Violation]:
+    """All per-program verdicts.  A violation in a program whose labels carry vocabulary spellings is then NAMED
+    after its root cause where that can be established: (a) the tree's parser reads other statements than the ones
+    written (a word was split) -> one `parse` fingerprint; (b) the same program with neutral label names passes
+    every verdict -> the fingerprint names the spelling class instead of the statement shape."""
+    viols = _check_program(prog, stats)
+    classes = sorted({name_class(ln["label"]) for ln in prog["lines"] if ln.get("label")} - {"generated"})
+    if not viols or not (classes or has_mnemonic_like_label(prog)):
+        return viols
+    first = viols[0]
+    why = misread(prog, render_program(prog, split_pairs=True)[0])
+    if why:
+        if stats is not None:
+            stats["word-split"] = stats.get("word-split", 0) + 1
+        return [Violation("parse", WHERE_MISREAD, SYMPTOM_MISREAD, prog,
+                          f"{why}; first consequence: {first.subcheck} / {first.where} / {first.symptom}: "
+                          f"{first.detail}"[:600])]
+    if classes and not _check_program(with_generated_names(prog)):
+        single = [c for c in classes if not _check_program(with_generated_names(prog, [c]))]
+        where = "label spelled like: " + (single[0] if single else "several reserved-looking words")
+        return [Violation(first.subcheck, where, first.symptom, prog,
+                          f"{first.where}: {first.detail}; the same program with generated label names passes"[:600])]
+    return viols
+
+
+def _check_program(prog: Dict[str, Any], stats: Optional[Dict[str, int]] = None) -> List[Violation]:
     """All per-program verdicts (layout model, standalone equivalence, label references, page rule)."""
     viols: List[Violation] = []
     stats = stats if stats is not None else {}
@@ -678,6 +969,11 @@ def check_pair_variant(prog: Dict[str, Any]) -> List[Violation]:
     if r1 != r2 and r1["ok"]:
         if not r2["ok"] and r2["error"].startswith("Parsing failed"):
             return []  # the grammar of the tree under test does not admit the one-line form: outside the domain
+        if has_mnemonic_like_label(prog) and (misread(prog, src_split) or misread(prog, src_pair)):
+            if misread(prog, src_split):
+                return []  # check_program names what follows from it; the comparison below would only restate it
+            return [Violation("parse", WHERE_MISREAD, SYMPTOM_MISREAD, prog,
+                              "one-line form: " + str(misread(prog, src_pair)))]
         if not r2["ok"]:
             symp = "one-line form rejected"
         elif r1["symbols"] != r2["symbols"]:
